@@ -83,6 +83,7 @@ type Gen struct {
 	qseq            int
 	usedSpecs       map[string]bool
 	pureSeen        map[string]bool
+	fpUndefSigned   map[string]bool
 	Label           string
 	noSlice         bool
 	retGroups       []*retGroup
@@ -104,7 +105,7 @@ func NewGen(p *Program, fn *ssa.Function, fc *FuncContract) *Gen {
 		tags: map[string]int{}, strlits: map[string]string{}, noteSeen: map[string]bool{}, ufs: map[string]bool{}, axiomsIn: map[string]bool{},
 		specDefs: map[string]*specDef{}, specBusy: map[string]bool{}, Assumptions: map[string]bool{},
 		inlined: map[string]bool{}, calleeContracts: map[string]bool{}, obNames: map[string]bool{}, safetyCount: map[string]int{},
-		boxedTags: map[int]bool{}, usedSpecs: map[string]bool{}, pureSeen: map[string]bool{}}
+		boxedTags: map[int]bool{}, usedSpecs: map[string]bool{}, pureSeen: map[string]bool{}, fpUndefSigned: map[string]bool{}}
 	g.keySort["$alloc"] = "Int"
 	if fc != nil {
 		g.BV = fc.Arith == "bv"
